@@ -162,6 +162,10 @@ def oracle(case, impl):
         return ("violation", "decoding the library's own encoding failed: " + dec)
     dv = etf.denote(etf.parse_term(dec))
     if dv != v:
+        if contains(tin, improper_empty_key):
+            # the key ImproperList{[], x} travels as x: it meets a key that the ordering identifies with x (x itself, or a
+            # number equal to it) only after the wire
+            return ("known", "C01-improper-empty-key")
         if contains(tin, catchall_keys_map):
             return ("known", "C01-map-catchall")
         return ("violation", "decoded term denotes a different value")
